@@ -1,7 +1,8 @@
 (* C17 — wire format, model runner and the trace oracle prop_ok. Definitions only. *)
 From Coq Require Import List NArith Bool.
 From V.common Require Import Wire.
-From V.C17 Require Import Model.
+From V.gen Require Consts.
+From V.C17 Require Import Model Timed Ingress.
 Import ListNotations.
 Open Scope N_scope.
 
@@ -53,7 +54,7 @@ Fixpoint run_trace (c : cfg) (s : store) (h : list (op * N)) : list N :=
   | (o, now) :: t => let '(s1, r) := step c s o now in enc_out r ++ dump s1 ++ run_trace c s1 t
   end.
 
-Definition run_case (l : list N) : list N :=
+Definition run_case_v1 (l : list N) : list N :=
   match decode_case l with
   | Some (c, h) => 1 :: run_trace c empty_store h
   | None => [0]
@@ -211,7 +212,7 @@ Fixpoint steps_ok (c : cfg) (prev : store) (h : list (op * N)) (tr : list (obs *
 
 (* prop_ok case trace: the trace (as printed by the implementation or by run_case) satisfies
    the property on this case. *)
-Definition prop_ok (case trace : list N) : bool :=
+Definition prop_ok_v1 (case trace : list N) : bool :=
   match decode_case case, trace with
   | Some (c, h), 1 :: body =>
       if 1 <=? max_per_key c then
@@ -222,6 +223,385 @@ Definition prop_ok (case trace : list N) : bool :=
       else true   (* configurations with max_providers_per_key = 0 are outside the property *)
   | None, [0] => true
   | _, _ => false
+  end.
+
+(* ================================================================================================
+   Second stream (cases starting with TIMED_TAG): the store with explicit clock readings and the
+   refresh machinery (Timed.v).  Case: TIMED_TAG cfg(6) interval n (tag now args..)*.
+   ================================================================================================ *)
+Definition TIMED_TAG : N := 9001.
+Definition KAD_TAG : N := 9002.
+
+Definition p_top : parser (top * N) :=
+  let* tag := pN in
+  let* now := pN in
+  match tag with
+  | 0 => let* k := pN in pret (TOp (OGet k), now)
+  | 1 => let* k := pN in let* v := pN in let* len := pN in let* e := pN in
+         pret (TOp (OPut (mkRec k v len (dec_opt e))), now)
+  | 2 => let* k := pN in pret (TOp (OGetProviders k), now)
+  | 3 => let* k := pN in let* pid := pN in let* d := pN in let* na := pN in
+         pret (TOp (OPutProvider k pid d na), now)
+  | 4 => let* k := pN in let* d := pN in let* q := pN in pret (TPutLocal k d q, now)
+  | 5 => let* k := pN in let* d := pN in pret (TOp (ORemoveLocal k d), now)
+  | 6 => pret (TPoll, now)
+  | 7 => let* e := pN in pret (TExpRec (dec_opt e), now)
+  | 8 => let* e := pN in pret (TExpProv e, now)
+  | _ => pfail
+  end.
+
+Definition decode_timed (l : list N) : option (cfg * N * list (top * N)) :=
+  pall (let* c := p_cfg in let* i := pN in let* ops := plist p_top in pret (c, i, ops)) l.
+
+Definition pair_key (x : N * N) : N := fst x.
+(* RefreshProvider actions (key, quorum) sorted by key, then the number of completed futures whose
+   key is no longer provided (`next_action` returns None for them without naming the key) *)
+Definition fired_some (l : list (N * option N)) : list (N * N) :=
+  flat_map (fun x : N * option N => match snd x with Some q => [(fst x, q)] | None => [] end) l.
+Definition fired_none (l : list (N * option N)) : N :=
+  N.of_nat (length (filter (fun x : N * option N => match snd x with None => true | Some _ => false end) l)).
+Definition enc_fired (l : list (N * option N)) : list N :=
+  enc_list (fun x : N * N => [fst x; snd x]) (sort_by pair_key (fired_some l)) ++ [fired_none l].
+Definition enc_tout (o : tout) : list N :=
+  match o with
+  | TOut o => enc_out o
+  | TFired l => 4 :: enc_fired l
+  | TFlag b => [5; b2n b]
+  end.
+Definition enc_quorum (l : list (N * N)) : list N :=
+  enc_list (fun x : N * N => [fst x; snd x]) (sort_by pair_key l).
+Definition tdump (ts : tstore) : list N :=
+  dump (ts_store ts) ++ enc_quorum (ts_quorum ts) ++ [N.of_nat (length (ts_timers ts))].
+
+Fixpoint trun_trace (c : cfg) (i : N) (ts : tstore) (h : list (top * N)) : list N :=
+  match h with
+  | [] => []
+  | (o, now) :: t =>
+      let '(ts1, r) := tstep c i ts o now in enc_tout r ++ tdump ts1 ++ trun_trace c i ts1 t
+  end.
+
+Definition run_timed (l : list N) : list N :=
+  match decode_timed l with
+  | Some (c, i, h) => 2 :: trun_trace c i empty_tstore h
+  | None => [0]
+  end.
+
+(* ---- oracle for the timed stream ---- *)
+Inductive tobs := TObs (o : obs) | TObsFired (l : list (N * N)) (gone : N) | TObsFlag (b : bool).
+Definition p_tobs : parser tobs :=
+  fun l =>
+  match l with
+  | 4 :: rest => (let* f := plist (let* k := pN in let* q := pN in pret (k, q)) in let* g := pN in pret (TObsFired f g)) rest
+  | 5 :: rest => (let* b := pBool in pret (TObsFlag b)) rest
+  | _ => (let* o := p_obs in pret (TObs o)) l
+  end.
+Definition p_tdump : parser (store * list (N * N) * N) :=
+  let* s := p_dump in
+  let* q := plist (let* k := pN in let* v := pN in pret (k, v)) in
+  let* n := pN in
+  pret (s, q, n).
+Definition p_tsteps (n : nat) : parser (list (tobs * (store * list (N * N) * N))) :=
+  prep n (let* o := p_tobs in let* d := p_tdump in pret (o, d)).
+
+Definition same_store (a b : store) : bool :=
+  recs_eqb (recs a) (recs b) && pkeys_eqb (pkeys a) (pkeys b) && nlist_eqb (locals a) (locals b).
+
+(* local_providers as dumped: the keys of the quorum map are exactly `locals` *)
+Definition quorum_sync (s : store) (q : list (N * N)) : bool :=
+  nlist_eqb (map fst q) (locals s).
+
+Definition tstep_ok (c : cfg) (prev : store) (pq : list (N * N)) (o : top) (now : N)
+           (ob : tobs) (next : store) (nq : list (N * N)) : bool :=
+  quorum_sync next nq &&
+  match o, ob with
+  | TOp o', TObs ob' => step_ok c prev o' now ob' next
+  | TPutLocal k d q, TObs ob' =>
+      step_ok c prev (OPutLocal k d) now ob' next &&
+      match ob' with
+      | OBool true => opt_eqb N.eqb (find_q k nq) (Some q)
+      | _ => true
+      end
+  | TPoll, TObsFired l _ =>
+      (* polling changes no map; a refresh is only ever announced for a key that is provided, with
+         the quorum stored for it *)
+      inv_b c next && same_store prev next &&
+      forallb (fun x : N * N => opt_eqb N.eqb (find_q (fst x) pq) (Some (snd x))) l
+  | TExpRec e, TObsFlag b =>
+      same_store prev next && Bool.eqb b (match e with Some t => t <=? now | None => false end)
+  | TExpProv e, TObsFlag b => same_store prev next && Bool.eqb b (e <=? now)
+  | _, _ => false
+  end.
+
+Fixpoint tsteps_ok (c : cfg) (prev : store) (pq : list (N * N)) (h : list (top * N))
+         (tr : list (tobs * (store * list (N * N) * N))) : bool :=
+  match h, tr with
+  | [], [] => true
+  | (o, now) :: h', (ob, (next, nq, _)) :: tr' =>
+      tstep_ok c prev pq o now ob next nq && tsteps_ok c next nq h' tr'
+  | _, _ => false
+  end.
+
+Definition prop_ok_timed (case trace : list N) : bool :=
+  match decode_timed case, trace with
+  | Some (c, i, h), 2 :: body =>
+      if 1 <=? max_per_key c then
+        match pall (p_tsteps (length h)) body with
+        | Some tr => tsteps_ok c empty_store [] h tr
+        | None => false
+        end
+      else true
+  | None, [0] => true
+  | _, _ => false
+  end.
+
+(* ================================================================================================
+   Third stream (cases starting with KAD_TAG): the Kademlia event loop around the store (Ingress.v).
+   Case: KAD_TAG cfg(6) interval auto record_ttl repl npub n (tag args..)*.
+   ================================================================================================ *)
+Definition p_triple : parser (N * N * N) :=
+  let* p := pN in let* d := pN in let* na := pN in pret (p, d, na).
+Definition p_pair : parser (N * N) := let* a := pN in let* b := pN in pret (a, b).
+
+Definition p_kev : parser kev :=
+  let* tag := pN in
+  match tag with
+  | 0 => let* f := pN in let* k := pN in let* v := pN in let* len := pN in let* pb := pN in let* ttl := pN in
+         pret (KPutValue f k v len pb ttl)
+  | 1 => let* f := pN in let* k := pN in
+         let* l := plist (let* t := p_triple in let* v := pN in pret (t, v)) in pret (KAddProvider f k l)
+  | 2 => let* f := pN in let* k := pN in pret (KGetValue f k)
+  | 3 => let* f := pN in let* k := pN in pret (KGetProviders f k)
+  | 4 => let* k := pN in let* v := pN in let* len := pN in let* e := pN in
+         pret (KCmdPutRecord k v len (dec_opt e))
+  | 5 => let* k := pN in let* v := pN in let* len := pN in let* pb := pN in let* e := pN in let* u := pBool in
+         pret (KCmdPutToPeers k v len pb (dec_opt e) u)
+  | 6 => let* k := pN in let* v := pN in let* len := pN in let* pb := pN in let* e := pN in
+         pret (KCmdStoreRecord k v len pb (dec_opt e))
+  | 7 => let* k := pN in let* d := pN in let* q := pN in pret (KCmdStartProviding k d q)
+  | 8 => let* k := pN in let* d := pN in pret (KCmdStopProviding k d)
+  | 9 => let* k := pN in pret (KCmdGetRecord k)
+  | 10 => let* k := pN in pret (KCmdGetProviders k)
+  | 11 => let* d := pN in let* l := plist p_pair in pret (KAge d l)
+  | _ => pfail
+  end.
+
+Definition decode_kad (l : list N) : option (kcfg * list kev) :=
+  pall (let* c := p_cfg in let* i := pN in let* a := pBool in let* rt := pN in let* rp := pN in
+        let* np := pN in let* evs := plist p_kev in pret (mkK c i a rt rp np, evs)) l.
+
+(* expiry relative to the clock: [2;0] none, [0; now - t] expired, [1; t - now] fresh *)
+Definition enc_rel (now : N) (e : option N) : list N :=
+  match e with
+  | None => [2; 0]
+  | Some t => if t <=? now then [0; now - t] else [1; t - now]
+  end.
+Definition enc_krec (now : N) (r : record) : list N :=
+  [r_key r; r_val r; r_len r] ++ enc_rel now (r_exp r).
+Definition enc_kprov (now : N) (p : prov) : list N :=
+  [p_id p; p_dist p; p_naddr p] ++ enc_rel now (Some (p_exp p)).
+Definition kdump (st : kstate) : list N :=
+  let s := ts_store (ks_t st) in
+  enc_list (enc_krec (ks_now st)) (sort_by r_key (recs s)) ++
+  enc_list (fun kp => fst kp :: enc_list (enc_kprov (ks_now st)) (snd kp)) (sort_by fst (pkeys s)) ++
+  enc_quorum (ts_quorum (ks_t st)) ++ [N.of_nat (length (ts_timers (ks_t st)))].
+Definition enc_kout (o : kout) : list N :=
+  match o with
+  | KNone => [0]
+  | KAck => [1]
+  | KRec None => [2; 0]
+  | KRec (Some (r, ttl)) => [2; 1; r_key r; r_val r; r_len r; enc_opt ttl]
+  | KProvs l => 3 :: enc_list (fun x : N * N => [fst x; snd x]) l
+  | KBool b => [4; b2n b]
+  | KDead => [5]
+  end.
+
+Fixpoint krun_trace (kc : kcfg) (st : kstate) (h : list kev) : list N :=
+  match h with
+  | [] => []
+  | e :: t =>
+      let '(st1, r) := kstep kc st e in
+      enc_kout r ++ (if ks_dead st1 then [0] else 1 :: kdump st1) ++ krun_trace kc st1 t
+  end.
+
+Definition run_kad (l : list N) : list N :=
+  match decode_kad l with
+  | Some (kc, h) => 3 :: krun_trace kc kstate0 h
+  | None => [0]
+  end.
+
+(* ---- oracle for the Kademlia stream: judged on the dumps and answers alone ---- *)
+Record krec := mkKR { kr_rec : record; kr_flag : N; kr_delta : N }.    (* r_exp unused *)
+Record kprov := mkKP { kp_prov : prov; kp_flag : N; kp_delta : N }.
+Record kdumped := mkKD { kd_recs : list krec; kd_pk : list (N * list kprov); kd_q : list (N * N) }.
+
+Definition p_krec : parser krec :=
+  let* k := pN in let* v := pN in let* len := pN in let* f := pN in let* d := pN in
+  pret (mkKR (mkRec k v len None) f d).
+Definition p_kprov : parser kprov :=
+  let* i := pN in let* d := pN in let* na := pN in let* f := pN in let* dl := pN in
+  pret (mkKP (mkProv i d na 0) f dl).
+Definition p_kdump : parser kdumped :=
+  let* rs := plist p_krec in
+  let* pk := plist (let* k := pN in let* ps := plist p_kprov in pret (k, ps)) in
+  let* q := plist p_pair in
+  let* _ := pN in
+  pret (mkKD rs pk q).
+
+Inductive kobs :=
+| KONone | KOAck | KORec (o : option (N * N * N * option N)) | KOProvs (l : list (N * N))
+| KOBool (b : bool) | KODead.
+Definition p_kobs : parser kobs :=
+  let* tag := pN in
+  match tag with
+  | 0 => pret KONone
+  | 1 => pret KOAck
+  | 2 => let* f := pN in
+         if f =? 0 then pret (KORec None)
+         else let* k := pN in let* v := pN in let* len := pN in let* t := pN in
+              pret (KORec (Some (k, v, len, dec_opt t)))
+  | 3 => let* l := plist p_pair in pret (KOProvs l)
+  | 4 => let* b := pBool in pret (KOBool b)
+  | 5 => pret KODead
+  | _ => pfail
+  end.
+
+Definition kd_store (d : kdumped) : store :=
+  mkStore (map kr_rec (kd_recs d)) (map (fun kp => (fst kp, map kp_prov (snd kp))) (kd_pk d)) (map fst (kd_q d)).
+
+Definition kd_find_rec (k : N) (d : kdumped) : option krec :=
+  find (fun r => r_key (kr_rec r) =? k) (kd_recs d).
+Definition kd_provs (k : N) (d : kdumped) : list kprov :=
+  match find (fun kp : N * list kprov => fst kp =? k) (kd_pk d) with Some kp => snd kp | None => [] end.
+
+(* absolute ordering of two relative expiries taken at the same clock reading:
+   a <= b ?  (flag 2 = never: the largest) *)
+Definition rel_le (fa da fb db : N) : bool :=
+  match fa, fb with
+  | 2, 2 => true
+  | 2, _ => false
+  | _, 2 => true
+  | 0, 0 => db <=? da
+  | 0, _ => true
+  | _, 0 => false
+  | _, _ => da <=? db
+  end.
+
+Definition sender (e : kev) : N :=
+  match e with
+  | KPutValue f _ _ _ _ _ | KAddProvider f _ _ | KGetValue f _ | KGetProviders f _ => f
+  | _ => 0
+  end.
+
+(* One event of the Kademlia stream, judged on what the implementation showed: the bounds hold in
+   the dumped store; what is served was stored and fresh at that clock reading; a stored record
+   with an expiry is not replaced by an earlier-expiring one; a remote event changes no local
+   provider registration and, without automatic validation, adds no record. *)
+Definition kstep_ok (kc : kcfg) (prev : kdumped) (e : kev) (ob : kobs) (next : kdumped) : bool :=
+  inv_b (k_scfg kc) (kd_store next) &&
+  match e, ob with
+  | KGetValue _ k, KORec (Some (k', v, len, ttl))
+  | KCmdGetRecord k, KORec (Some (k', v, len, ttl)) =>
+      (k' =? k) &&
+      match kd_find_rec k prev with
+      | Some r => (r_val (kr_rec r) =? v) && (r_len (kr_rec r) =? len) && negb (kr_flag r =? 0)
+      | None => false
+      end
+  | KGetValue _ k, KORec None
+  | KCmdGetRecord k, KORec None =>
+      match kd_find_rec k prev with
+      | Some r => kr_flag r =? 0          (* only an expired record may be withheld *)
+      | None => true
+      end
+  | KGetProviders _ k, KOProvs l =>
+      forallb (fun x : N * N =>
+                 existsb (fun p => (p_id (kp_prov p) =? fst x) && negb (kp_flag p =? 0)) (kd_provs k prev)) l &&
+      forallb (fun p => (kp_flag p =? 0) || existsb (fun x : N * N => fst x =? p_id (kp_prov p)) l) (kd_provs k prev) &&
+      forallb (fun x : N * N => snd x <=? WIRE_MAX_ADDRS) l
+  | KAge _ _, KOBool _ => true
+  | KCmdStopProviding _ _, KOBool _ => true
+  | _, KODead => true
+  | _, KORec _ => false
+  | _, KOProvs _ => match e with KCmdGetProviders _ => true | _ => false end
+  | _, _ => true
+  end &&
+  (* TTL monotonicity on every key present before and after (the clock does not move in the step) *)
+  match e with
+  | KAge _ _ => true
+  | _ =>
+      forallb (fun r =>
+                 match kd_find_rec (r_key (kr_rec r)) next with
+                 | Some r' =>
+                     if (kr_flag r =? 2) || (kr_flag r' =? 2) then true
+                     else rel_le (kr_flag r) (kr_delta r) (kr_flag r') (kr_delta r')
+                 | None => true
+                 end) (kd_recs prev)
+  end &&
+  if remote e then
+    list_eqb (fun a b : N * N => (fst a =? fst b) && (snd a =? snd b)) (kd_q prev) (kd_q next) &&
+    (* a remote peer adds nobody but itself as a provider *)
+    forallb (fun kp : N * list kprov =>
+               forallb (fun p => (p_id (kp_prov p) =? sender e) ||
+                                 existsb (fun p0 => p_id (kp_prov p0) =? p_id (kp_prov p)) (kd_provs (fst kp) prev))
+                       (snd kp)) (kd_pk next) &&
+    (k_auto kc ||
+     forallb (fun r' => match kd_find_rec (r_key (kr_rec r')) prev with
+                        | Some r => (r_val (kr_rec r) =? r_val (kr_rec r')) && (r_len (kr_rec r) =? r_len (kr_rec r'))
+                        | None => false
+                        end) (kd_recs next))
+  else true.
+
+(* every step: answer, then 0 (the loop is gone: no dump) or 1 and the dump *)
+Definition p_ksteps (n : nat) : parser (list (kobs * option kdumped)) :=
+  prep n (let* o := p_kobs in
+          let* f := pN in
+          if f =? 0 then pret (o, None) else let* d := p_kdump in pret (o, Some d)).
+
+Fixpoint ksteps_ok (kc : kcfg) (prev : kdumped) (h : list kev) (tr : list (kobs * option kdumped)) : bool :=
+  match h, tr with
+  | [], [] => true
+  | e :: h', (ob, Some next) :: tr' => kstep_ok kc prev e ob next && ksteps_ok kc next h' tr'
+  | e :: h', (ob, None) :: tr' =>
+      (* the loop is gone (debug assertion of remove_local_provider): outside the property text *)
+      match ob with KODead | KOBool false => ksteps_ok kc prev h' tr' | _ => false end
+  | _, _ => false
+  end.
+
+Definition prop_ok_kad (case trace : list N) : bool :=
+  match decode_kad case, trace with
+  | Some (kc, h), 3 :: body =>
+      if 1 <=? max_per_key (k_scfg kc) then
+        match pall (p_ksteps (length h)) body with
+        | Some tr => ksteps_ok kc (mkKD [] [] []) h tr
+        | None => false
+        end
+      else true
+  | None, [0] => true
+  | _, _ => false
+  end.
+
+(* ---- DEFAULTS_TAG: `MemoryStoreConfig::default()` as compiled, against the constants the
+   translator reads from config.rs (the ones C17_default_config is stated for) ---- *)
+Definition run_defaults : list N :=
+  [4; V.gen.Consts.DEFAULT_MAX_RECORDS; V.gen.Consts.DEFAULT_MAX_RECORD_SIZE_BYTES;
+   V.gen.Consts.DEFAULT_MAX_PROVIDER_KEYS; V.gen.Consts.DEFAULT_MAX_PROVIDER_ADDRESSES;
+   V.gen.Consts.DEFAULT_MAX_PROVIDERS_PER_KEY; V.gen.Consts.DEFAULT_PROVIDER_REFRESH_INTERVAL_SECS;
+   V.gen.Consts.DEFAULT_PROVIDER_TTL_SECS].
+
+(* ---- dispatch on the first number of the case ---- *)
+Definition run_case (l : list N) : list N :=
+  match l with
+  | 9001 :: rest => run_timed rest
+  | 9002 :: rest => run_kad rest
+  | [9003] => run_defaults
+  | _ => run_case_v1 l
+  end.
+
+Definition prop_ok (case trace : list N) : bool :=
+  match case with
+  | 9001 :: rest => prop_ok_timed rest trace
+  | 9002 :: rest => prop_ok_kad rest trace
+  | [9003] => true      (* other default values are a different configuration, not a violation *)
+  | _ => prop_ok_v1 case trace
   end.
 
 (* No known-finding classes for C17: every failing case is a violation. *)
